@@ -99,17 +99,34 @@ static void launch_unit(int id)
     launch_unit_ex(id, 0);
 }
 
-static void join_unit(int id, int by)
+/* join + free, or (free_only) ABT_thread_free alone, which joins internally: the caller may block inside the free
+ * and come back on another execution stream */
+static void join_unit_ex(int id, int by, int free_only)
 {
     unit *u = &U[id];
+    ABTI_thread *p_target = ABTI_thread_get_ptr(u->th);
     {
         char b[64];
-        vs_log("apiCall join U%d %s", id, vs_addr_name(ABTI_thread_get_ptr(u->th), b, sizeof b));
+        vs_log("apiCall join U%d %s", id, vs_addr_name(p_target, b, sizeof b));
+    }
+    if (free_only) {
+        ABT_OK(ABT_thread_free(&u->th));
+        char b[64];
+        vs_note("apiRet join U%d %s", id, vs_addr_name(p_target, b, sizeof b));
+        VSA_CHECK(u->th == ABT_THREAD_NULL, "ABT_thread_free did not reset the handle of U%d", id);
+        VSA_CHECK(u->cancel_me ? u->started <= 1 : (u->started == 1 && (u->finished == 1 || u->exited == 1)),
+                  "free of U%d returned: started=%d finished=%d exited=%d", id, u->started, u->finished, u->exited);
+        u->joined = 1;
+        if (!u->counted_out) {
+            u->counted_out = 1;
+            __sync_fetch_and_sub(&live_workers, 1);
+        }
+        return;
     }
     ABT_OK(ABT_thread_join(u->th));
     {
         char b[64];
-        vs_note("apiRet join U%d %s", id, vs_addr_name(ABTI_thread_get_ptr(u->th), b, sizeof b));
+        vs_note("apiRet join U%d %s", id, vs_addr_name(p_target, b, sizeof b));
     }
     ABT_thread_state st;
     ABT_OK(ABT_thread_get_state(u->th, &st));
@@ -123,6 +140,17 @@ static void join_unit(int id, int by)
     }
     ABT_OK(ABT_thread_free(&u->th));
     VSA_CHECK(u->th == ABT_THREAD_NULL, "ABT_thread_free did not reset the handle of U%d", id);
+}
+
+static void join_unit(int id, int by)
+{
+    /* the resumer polls named units' handles: a unit that suspends must stay valid until it is known to be done, so
+     * only units without a suspend step are freed without a separate join */
+    int free_only = sc_rnd(2);
+    for (int i = 0; i < U[id].nsteps; i++)
+        if (U[id].steps[i] == OP_SUSPEND)
+            free_only = 0;
+    join_unit_ex(id, by, free_only);
 }
 
 static void unit_fn(void *arg)
@@ -206,7 +234,20 @@ static void unit_fn(void *arg)
                     VSA_CHECK(rc == ABT_SUCCESS, "migrate_to_pool of U%d returned %d", u->id, rc);
                     int cb0 = u->mig_cb;
                     vs_note("migReq U%d P%d", u->id, tgt);
-                    ABT_OK(ABT_thread_yield()); /* the request is handled at this scheduling point */
+                    if (nch > 0 && sc_rnd(2)) {
+                        /* the request is handled when this unit blocks in the join inside ABT_thread_free (if the
+                         * child is still running): the caller then comes back on the target pool's stream */
+                        u->in_run = 0;
+                        join_unit_ex(children[--nch], u->id, 1);
+                        VSA_CHECK(u->in_run == 0, "unit U%d resumed on two streams at once", u->id);
+                        u->in_run = 1;
+                    }
+                    ABT_OK(ABT_thread_get_last_pool(self, &cur));
+                    if (cur != sc_pool[tgt]) {
+                        u->in_run = 0;
+                        ABT_OK(ABT_thread_yield()); /* the request is handled at this scheduling point */
+                        u->in_run = 1;
+                    }
                     ABT_OK(ABT_thread_get_last_pool(self, &cur));
                     VSA_CHECK(cur == sc_pool[tgt], "U%d runs again after a migration request but not from the target pool", u->id);
                     VSA_CHECK(u->mig_cb == cb0 + (u->has_cb ? 1 : 0), "migration callback of U%d ran %d times for one migration", u->id, u->mig_cb - cb0);
